@@ -71,6 +71,14 @@ func arrayDefineOwnProperty(obj *object, name string, descriptor property, throw
 		if !isValue {
 			panic(obj.runtime.panicTypeError("Array.DefineOwnProperty %q is not a value", descriptor.value))
 		}
+		if newLengthValue.IsObject() {
+			// 15.4.5.1 steps 3.c and 3.d convert Desc.[[Value]] twice: ToUint32, then ToNumber
+			first := float64Value(newLengthValue.float64())
+			if second := newLengthValue.float64(); second != first.float64() {
+				panic(obj.runtime.panicRangeError())
+			}
+			newLengthValue = first
+		}
 		newLength := arrayUint32(obj.runtime, newLengthValue)
 		descriptor.value = uint32Value(newLength)
 		if newLength >= length {
